@@ -141,6 +141,25 @@ Proof.
   intros a H. unfold err_from in H. apply bind_ok in H. destruct H as [q [_ H]]. discriminate.
 Qed.
 
+Lemma okP_bind_assoc {A B D} (r : res A) (f : A -> res B) (g : B -> res D) (Q : D -> Prop) :
+  okP (bind r (fun a => bind (f a) g)) Q -> okP (bind (bind r f) g) Q.
+Proof. destruct r; cbn [bind]; auto. Qed.
+Lemma okP_bind_ret {A B} (a : A) (f : A -> res B) (Q : B -> Prop) :
+  okP (f a) Q -> okP (bind (Ok a) f) Q.
+Proof. auto. Qed.
+Lemma okP_bind_err {A B} e (f : A -> res B) (Q : B -> Prop) : okP (bind (Err e) f) Q.
+Proof. intros x H; discriminate. Qed.
+Lemma okP_bind_panic {A B} p (f : A -> res B) (Q : B -> Prop) : okP (bind (Panic p) f) Q.
+Proof. intros x H; discriminate. Qed.
+Lemma okP_bind_fuel {A B} (f : A -> res B) (Q : B -> Prop) : okP (bind OutOfFuel f) Q.
+Proof. intros x H; discriminate. Qed.
+Lemma okP_bind_err_at {A B} text s mk (f : A -> res B) (Q : B -> Prop) :
+  okP (bind (err_at text s mk) f) Q.
+Proof. apply (okP_bind _ _ (fun _ => False)); [apply okP_err_at|intros a []]. Qed.
+Lemma okP_bind_err_from {A B} text p mk (f : A -> res B) (Q : B -> Prop) :
+  okP (bind (err_from text p mk) f) Q.
+Proof. apply (okP_bind _ _ (fun _ => False)); [apply okP_err_from|intros a []]. Qed.
+
 (* one step of symbolic execution of a goal [okP e Q]; [spec] is tried on the first
    computation of a bind, with the bind taken blindly when it fails *)
 Ltac ok_simpl_hyps :=
@@ -158,6 +177,17 @@ Ltac ok_step spec :=
   | |- okP OutOfFuel _ => apply okP_fuel
   | |- okP (err_at _ _ _) _ => apply okP_err_at
   | |- okP (err_from _ _ _) _ => apply okP_err_from
+  | |- okP (bind (match ?x with _ => _ end) _) _ =>
+    first [ is_var x; destruct x | let E := fresh "E" in destruct x eqn:E ];
+    ok_simpl_hyps
+  | |- okP (bind (let _ := _ in _) _) _ => cbv zeta
+  | |- okP (bind (bind _ _) _) _ => apply okP_bind_assoc
+  | |- okP (bind (Ok _) _) _ => apply okP_bind_ret; cbv beta
+  | |- okP (bind (Err _) _) _ => apply okP_bind_err
+  | |- okP (bind (Panic _) _) _ => apply okP_bind_panic
+  | |- okP (bind OutOfFuel _) _ => apply okP_bind_fuel
+  | |- okP (bind (err_at _ _ _) _) _ => apply okP_bind_err_at
+  | |- okP (bind (err_from _ _ _) _) _ => apply okP_bind_err_from
   | |- okP (bind _ _) _ =>
     first [ eapply okP_bind; [ solve [spec] | let a := fresh "a" in let Ha := fresh "Ha" in
                                               intros a Ha ]
@@ -167,6 +197,7 @@ Ltac ok_step spec :=
     first [ is_var x; destruct x | let E := fresh "E" in destruct x eqn:E ];
     ok_simpl_hyps
   | |- okP (let _ := _ in _) _ => cbv zeta
+  | |- okP _ _ => solve [spec]
   end.
 
 (* ------------------------------------------------------------------ *)
@@ -198,6 +229,12 @@ Proof. unfold consume_name. repeat ok_step sspec. assumption. Qed.
 
 Lemma consume_qname_okP s :
   okP (consume_qname text s) (fun p => V (fst (fst p)) /\ V (snd (fst p))).
-Proof. unfold consume_qname. repeat ok_step sspec; split; assumption. Qed.
+Proof.
+  unfold consume_qname. ok_step sspec. ok_step sspec.
+  eapply okP_bind with (Q' := fun p => V (fst p) /\ V (snd p)).
+  { repeat ok_step sspec; cbn [fst snd]; split; assumption. }
+  intros [p l] [Hp Hl]. cbn [fst snd] in *.
+  repeat ok_step sspec. cbn [fst snd]. split; assumption.
+Qed.
 
 End Stream.
